@@ -15,6 +15,7 @@ def main() -> int:
     ap.add_argument('--setup', action='store_true')
     ap.add_argument('--replay')
     ap.add_argument('--selftest', action='store_true')
+    ap.add_argument('--coqchk', action='store_true', help='re-check every compiled Props file with the independent checker and list the axioms')
     a = ap.parse_args()
     if a.setup:
         b = runner.build(verbose=False)
@@ -25,6 +26,16 @@ def main() -> int:
                 if not ok:
                     print('not built:', rel)
         return 0 if b['ok'] else 1
+    if a.coqchk:
+        import glob, subprocess
+        b = runner.build(verbose=False)
+        mods = ['VV.Props.' + os.path.basename(f)[:-3] for f in sorted(glob.glob(os.path.join(common.COQ, 'Props', '*.vo')))]
+        p = subprocess.run(['timeout', '3000', 'coqchk', '-silent', '-o', '-Q', '.', 'VV'] + mods, cwd=common.COQ, capture_output=True, text=True)
+        out = '\n'.join(l for l in (p.stdout + p.stderr).splitlines() if l.strip())
+        with open(os.path.join(common.VERIF, 'coqchk.txt'), 'w') as fh:
+            fh.write('$ cd coq && coqchk -silent -o -Q . VV ' + ' '.join(mods) + '\n' + out + f'\nexit status {p.returncode}\n')
+        print(out)
+        return 0 if (b['ok'] and p.returncode == 0 and 'Axioms: <none>' in out) else 1
     if not a.prop:
         ap.error('property id required')
     return runner.run_property(a.prop.upper(), a.tier, a.replay)
